@@ -61,7 +61,9 @@ func c10Anchored(p *Prog, r *Report) {
 	q := NewQ(p, r)
 	// ---- C10.3 core.socket.Close
 	coreCloseWaitsForNothing(p, r, "C10.17/close-waits-for-no-goroutine")
-	listsClearedWhereSwept(p, r, "C10.18/lists-cleared-where-swept", func(rel string) bool { return strings.HasPrefix(rel, "transport") || rel == "internal/core" || strings.HasPrefix(rel, "protocol/") })
+	listsClearedWhereSwept(p, r, "C10.18/lists-cleared-where-swept", func(rel string) bool {
+		return strings.HasPrefix(rel, "transport") || rel == "internal/core" || strings.HasPrefix(rel, "protocol/")
+	})
 	r.Floor("C10.18/lists-cleared-where-swept", "list_resets.C10.18/lists-cleared-where-swept", 1)
 	R := "C10.3/socket-close"
 	r.Describe(R, "core socket.Close marks the socket closed under the lock, closes every listener and dialer, the protocol and all pipes; NewDialer/NewListener register an endpoint only if the socket is not closed, tested in the same critical section")
